@@ -69,7 +69,7 @@ JudgeArray(who, P, q, D, set, r, withQueries, ref) ==
 
 NoRef == [raised |-> "none", g |-> <<>>, lowraised |-> "none", lowg |-> <<>>]
 JudgeRun(e) ==
-    LET D == TLCEval([i \in 1..Len(e.trees) |-> Descr(e.trees[i], e.w[i])])
+    LET D == TLCEval([i \in 1..Len(e.trees) |-> Descr(e.trees[i], e.w[i], e.tip)])
         s == TLCEval(Replayed(e))
         files == {f \in 1..e.F : TRUE}
         unread == e.mode = "shim" /\ s.taken # files
